@@ -10,6 +10,7 @@
 import Kopf.Lemmas.C06_Live
 import Kopf.Lemmas.C06_Registry
 import Kopf.Lemmas.C06_Invoke
+import Kopf.Lemmas.C06_Slots
 namespace Kopf.C06
 
 /-! ## Foreign finalizers: never added, dropped or reordered -/
@@ -967,5 +968,52 @@ theorem detached_release_witness :
   rintro ⟨tt, ht, hle⟩
   cases ht
   simp at hle
+
+/-! ### Round h — the record of a daemon under its handler's id (`memory.running_daemons`, Model/C06_Slots.lean) -/
+
+/-- Under the code's spawning rule (a new invocation only when nothing is recorded under the id) there are never two
+invocations of one handler alive for an object, for every history of cycles, stops, abandonments and exits. -/
+theorem never_two_invocations {s : Slots} (h : SReach false s) : s.live.length ≤ 1 := (sinv_reach h).2.1
+
+/-- ... and whatever is alive is the RECORDED invocation: `stop_daemons`, the daemon killer and the stopping of a gone
+object (which all iterate the records only) see every live invocation. -/
+theorem live_invocation_is_recorded {s : Slots} (h : SReach false s) : ∀ i ∈ s.live, s.slot = some i.n := (sinv_reach h).1
+
+/-- The daemon clause of "never released early" at the level of invocations: whenever `stop_daemons` reports no delay
+(`noDelay`: the cycle may release the finalizer), every invocation that is still alive has been told to stop and given
+up on after its timeouts — for every history; so the by-id `del daemons[handler.id]` of an ending invocation never
+hides a live one. -/
+theorem no_delay_only_when_all_exited_or_abandoned {s : Slots} (h : SReach false s) (hn : s.noDelay = true) :
+    ∀ i ∈ s.live, i.told = true ∧ i.abandoned = true := by
+  intro i hi
+  have hI := sinv_reach h
+  have hslot := hI.1 i hi
+  have hab : i.abandoned = true := by
+    have hrec : s.recorded = some i := by
+      unfold Slots.recorded
+      rw [hslot]
+      match hl : s.live, hI.2.1, hi with
+      | [x], _, hi => simp at hi; simp [hi]
+      | [], _, hi => simp at hi
+      | _ :: _ :: _, h2, _ => simp at h2
+    simpa [Slots.noDelay, hslot, hrec] using hn
+  exact ⟨hI.2.2.2 i hi hab, hab⟩
+
+example : SReach false { slot := some 1, live := [{ n := 1, told := true, abandoned := true }], next := 2 } :=
+  ⟨[.spawn, .tell, .abandon, .spawn, .exit 0, .spawn, .tell, .abandon], by decide⟩
+example : Slots.noDelay { slot := some 1, live := [{ n := 1, told := true, abandoned := true }], next := 2 } = true := by decide
+
+/-- The variant that starts a new invocation over a recorded one flagged abandoned (seeded change C06h): the abandoned
+first invocation ends later and its epilogue removes the record of the SECOND one; `stop_daemons` then reports no delay
+while the second invocation is alive, was never told to stop and was never given up on — the property fails. -/
+theorem respawn_over_abandoned_witness :
+    ∃ s, SReach true s ∧ s.noDelay = true ∧ ∃ i ∈ s.live, i.told = false ∧ i.abandoned = false :=
+  ⟨{ slot := none, live := [{ n := 1 }], next := 2 }, ⟨[.spawn, .tell, .abandon, .spawn, .exit 0], by decide⟩, by decide,
+   { n := 1 }, by simp, rfl, rfl⟩
+
+/-- ... and two invocations of one handler are alive at once on the way there. -/
+theorem respawn_two_alive_witness : ∃ s, SReach true s ∧ s.live.length = 2 :=
+  ⟨{ slot := some 1, live := [{ n := 0, told := true, abandoned := true }, { n := 1 }], next := 2 },
+   ⟨[.spawn, .tell, .abandon, .spawn], by decide⟩, rfl⟩
 
 end Kopf.C06
